@@ -293,10 +293,11 @@ def decodeSeqConnectivity : DecM (Nat × List (Nat × Nat × Nat)) := do
   let numFaces ← if legacy then rdU32 else varint 32
   let numPoints ← if legacy then rdU32 else varint 32
   require (numFaces ≤ 0xffffffff / 3)
-  let rem ← remaining
-  require (numFaces ≤ rem / 3)
   declare (numFaces + numPoints)
   let method ← rdU8
+  -- the plausibility bound applies to the raw index methods only (since the `fix:` commit 44c247f)
+  let rem ← remaining
+  if method != 0 then require (numFaces ≤ rem / 3)
   alloc "mesh.faces" (12 * numFaces)
   let idx ←
     if method == 0 then do
